@@ -31,9 +31,43 @@ CHECKS = {
  "C15": ("exploration", "runtime reference-model monitor: threshold setup and combination executed for every (t,N), subset and ordering and compared with exact Shamir/Lagrange arithmetic in R_QP; protocols re-run with t shares",
          "All 1<=t<=N<=6; 8 public-point families (small, >2^32, near 2^64, near multiples of primes) distinct mod every prime; all aggregation orders (N<=5) in three accumulation shapes; every t-subset in every listing order (exhaustive for N<=5); sum of additive shares == ideal secret exactly; fewer than t parties refused by error; (t-1)-subsets do not interpolate the secret; CKG and key-switch protocols run by t parties decrypt correctly within worst-case noise.",
          "public points colliding modulo a prime, duplicate points and lists longer than t are outside the property's domain and not generated", "4/C15"),
+
+ "C05": ("exploration", "runtime reference-model monitor: generated straight-line BGV/BFV programs executed step by step against an exact Z_t slot model, with exact level/degree/scale bookkeeping and secret-key noise measurement",
+         "logN 4..11, t of 8..60 bits incl. cyclotomic order < 2N, 2..8 Q primes, BGV and BFV evaluators (New/ShallowCopy/WithKey), programs of <=16/24 steps over all public ops and operand kinds (ct deg 1/2, pt, *big.Int, uint64/int64/int, vectors) with mismatched scales/levels and recycled/aliased receivers; every step judged (value mod t, level, degree, scale in Z_t, noise <= worst-case one-step bound); documented failure conditions must be errors.",
+         "a step is only run when its worst-case noise bound leaves budget (inside the budget the result must be exact); noise changes below ~2x are invisible", "4/C05"),
+ "C06": ("exploration", "runtime reference-model monitor: generated CKKS programs and directed operand matrices judged call by call against 256-bit complex arithmetic with propagated measured error + worst-case added noise, exact scale/level metadata",
+         "std and CI rings, logN 4..10, scales 20..55 and 65..100 bits (two primes per rescale), all scalar/vector operand kinds, unequal scales/levels/degrees/slot counts, receivers new/fresh/dirty/aliased; Rescale/RescaleTo/SetScale/ScaleUp/DropLevel/rotations/conjugation at every level; observer independent of Encoder.Decode (own CRT lift + big-float DFT).",
+         "precision losses inside the worst-case budget are invisible; weak-budget checks are counted separately", "4/C06"),
+ "C09": ("exploration", "runtime snapshot/differential monitor: deep reflection snapshots of every non-output argument around each call, fresh-vs-aliased and clean-vs-poisoned-history differential execution over a method x pattern table",
+         "bgv/ckks/rlwe/rgsw evaluators, ring.Ring (61 rows) and BasisExtender, encoders, encryptor/decryptor/keygen, lintrans and polynomial evaluators, multiparty protocols; patterns: fresh, out=op0, out=op1, op0=op1, all equal, poisoned scratch buffers (3 kinds), warm evaluator, output that held a degree-2 top-level value; equality on canonical residues + exact metadata.",
+         "a mutation of an input that is restored before return is invisible; ringqp ops, ring packing, bootstrapping and mp refresh are not in the table", "4/C09"),
+ "C11": ("exploration", "runtime reference-model monitor: Galois-element algebra against a math/big model (exhaustive for small rings), rotations/sums/traces judged in the phase domain against the coefficient automorphism model with worst-case key-switch bounds, evaluators holding exactly the advertised keys",
+         "std and CI rings logN 4..11, ckks/bgv/rlwe, all k in [-2 slots, 2 slots] for small rings plus k near 2^62/2^63, plain/hoisted/lazy variants, every (batch, n) for <= 64 slots, Trace for every logN; missing-key errors with exactly the advertised Galois elements are violations.",
+         "Trace in the CI ring not judged; hoisted ops only with P; CKKS slot tolerances are worst-case", "4/C11"),
+ "C13": ("exploration", "runtime reference-model monitor: homomorphic polynomial evaluation compared slot-wise with Horner/Chebyshev evaluation (exact mod t, 320-bit floats for CKKS), exact depth and output scale, composite circuits on their documented domains",
+         "bgv (standard and scale-invariant) and ckks (std/CI, one or two primes per rescale): every degree 1..9, 2^k-1/2^k/2^k+1 and random degrees up to the depth, 9 coefficient shapes, Polynomial / PolynomialVector with disjoint mappings / power basis (fresh, precomputed, serialised), input level min..max, non-default input and target scales; sign/step/max/min/inverse/mod1 circuits; bignum plaintext tools.",
+         "CKKS values are judged against a worst-case bound (2^-7..2^-40); a hang in the code under test is left to the watchdog (inconclusive)", "4/C13"),
+ "C14": ("exploration", "runtime monitor with ideal-secret observation: collective pk/rlk/gk/evk protocols run by 1..8 parties; every key component checked to encrypt its gadget payload under the sum of the secrets, functional use through the single-party API, exact aggregation-order/tree independence",
+         "std/CI rings, 1..5 Q primes of unequal sizes, 0..2 P, LevelQ/LevelP/BaseTwoDecomposition drawn per case; all permutations x tree shapes for N<=4, all 14 shapes for N=5; shares from memory or serialisation round trip; CRS agreement between parties; mismatched shares must be rejected with an error.",
+         "noise judged against N x worst-case bounds plus a [1/2,2] std region; rlk AggregateShares has no error result (known finding)", "4/C14"),
+ "C16": ("exploration", "runtime monitor with ideal-secret observation: collective key switching, enc-to-share / share-to-enc, refresh and masked transform executed by 1..8 parties; shares, aggregates and outputs compared exactly (mod q / mod t) or within worst-case tolerance, smudging noise measured per share",
+         "rlwe/bgv/ckks, std and CI, every input level, sampled output levels and logBound, flooding sigma 3.2/2^10/2^30, transforms nil/identity/slot map/linear with all Decode/Encode flag combinations, different output parameters, 3-4 aggregation plans per level, ShallowCopy/WithParams instances, serialised shares.",
+         "statistical floor sees only >2x noise reductions; transform functions are linear maps", "4/C16"),
+ "C17": ("exploration", "runtime monitor over sampler call scripts: twin samplers on equal keys must be bit-identical, every output checked for RNS consistency / support / weight / additivity against a replayed plain sample; fixed-seed statistical tests with >= 6 standard errors of margin",
+         "Uniform, ringqp.Uniform, Gaussian (16 sigma/bound pairs incl. big-number path), Ternary P and H, +-Montgomery, random scripts of Read/ReadNew/ReadAndAdd/AtLevel over level views; chi-square / moments / independence on 2^18..2^21 coefficients; KeyedPRNG replay/reset/key sensitivity; compressed key expansion; multiparty CRP agreement.",
+         "distortions below ~6 standard errors (3% on sigma) are invisible; one genuine defect (Knuth-Yao sign-bit reuse) is a known finding because its repair changes the golden serialization test", "4/C17"),
+ "C18": ("exploration", "runtime monitor: reduced-size bootstrapping parameter sets executed end to end (level, scale exact; message error against frozen per-set precision floors), DFT and mod1 sub-circuits against plaintext models, every key of GenEvaluationKeys classified by which dense secret decrypts it (sparse-key confinement)",
+         "50 named reduced sets (the 8 defaults at logN 10 plus one-option variants), Bootstrap/BootstrapMany/Evaluate/EvaluateConjugateInvariant, input levels min..max, 1..max slots, batches 1..4, ShallowCopy for half the calls; key presence/Galois list equality; a key no dense secret decrypts must be at level (0,0); full-size defaults checked structurally only.",
+         "precision floors are empirical and frozen (loss < ~5 bits invisible); keys of the full-size sets are not generated", "4/C18"),
+ "C19": ("exploration", "runtime monitor: generated parameter literals judged by an independent reference validator (must-reject / must-accept) with immediate arithmetic, encoding and encryption soundness checks on every accepted literal; generators, round trips, derived quantities and the 29 shipped sets against a bound table",
+         "~3500 literals per quick run (one mutation each over sizes 2..63 bits, duplicates, composites, non-NTT-friendly primes, LogN bounds, t classes, root orders), GenModuli/prime generator for every size x root order, JSON/binary round trips for rlwe/bgv/ckks/bootstrapping, ~40 accessors, shipped sets' log2(QP) vs HE-standard / eprint 2022/024 table.",
+         "128-bit security is judged against a table, not an estimator; growth inside the tabulated envelope is invisible", "4/C19"),
+ "C20": ("exploration", "runtime monitor with secret-key observation: RGSW rows decrypted, external products compared with m*g and with the exact gadget sum, RGSW algebra row by row, blind rotations compared with the exact rotation model X^k*F and the drift window",
+         "logN 4..10, 1..10 Q primes incl. the 32-bit fast path and >= 8 digits, 0..3 P, w 0..30, in place / out of place into garbage / after unrelated product; blind rotation N_LWE 2^4..2^9, 10 key shapes, 6 secret weights, 5 functions on 6 intervals, all grid points for small N_LWE, key-request recording.",
+         "RGSW public-key encryption and non-NTT inputs not exercised (undocumented)", "4/C20"),
 }
 ALL = [f"C{i:02d}" for i in range(1, 21)]
-PENDING_REASON = "monitor not built yet in this session (planned in DESIGN.md section 4); nothing is claimed for it"
+PENDING_REASON = "monitor still under construction in this session (planned in DESIGN.md section 4, technique unchanged: runtime monitoring); nothing is claimed for it yet"
 
 def main():
     checks = []
